@@ -185,7 +185,9 @@ def check(rep: Report, ctx: Ctx) -> None:
         g = ctx.func(f"DataHolder.{prop_name}")
         rets = [r for r in ast.walk(g.node) if isinstance(r, ast.Return)]
         last = max(rets, key=lambda r: r.lineno) if rets else None
-        ok = last is not None and unparse(last.value) == f"self.{fld}" and \
+        lastv = ctx.reach(g).resolve(last.value, at=last) \
+            if last is not None and last.value is not None else None
+        ok = lastv is not None and unparse(lastv) == f"self.{fld}" and \
             not enclosing(g.node, last, (ast.If,))
         rep.ob("R11.8", f"{prop_name} returns {fld} once data was seen", ok,
                fi=g, node=last if last is not None else g.node,
